@@ -4,7 +4,7 @@ import sys, os
 sys.path.insert(0, os.path.dirname(os.path.abspath(__file__)))
 import vf, extract as X
 for spec in sys.argv[1:]:
-    parts = spec.split(":")
+    parts = spec.split("|") if "|" in spec else spec.split(":")
     f, kind, name = parts[:3]
     impl = parts[3] if len(parts) > 3 and parts[3] else None
     derive = parts[4] if len(parts) > 4 else ""
@@ -17,11 +17,14 @@ for spec in sys.argv[1:]:
         # file:region:name:impl:in_fn:from:to[:from_nth[:to_nth]]
         in_fn, frm, to = parts[4], parts[5], parts[6]
         fn_, tn_ = (parts[7] if len(parts) > 7 else "0"), (parts[8] if len(parts) > 8 else "0")
+        excl = len(parts) > 9 and parts[9] == "excl"
         attrs.update({"in": in_fn, "from": frm, "to": to})
-        ex = X.extract_region(os.path.join(vf.REPO, f), in_fn, impl, frm, to, int(fn_), int(tn_))
+        if excl: attrs["to_exclusive"] = "yes"
+        ex = X.extract_region(os.path.join(vf.REPO, f), in_fn, impl, frm, to, int(fn_), int(tn_), excl)
         text, log, loops = vf.normalise_item(attrs, ex["text"])
         hdr = '//#item file=%s kind=region name=%s in=%s from="%s" to="%s" from_nth=%s to_nth=%s' % (f, name, in_fn, frm, to, fn_, tn_)
         if impl: hdr += ' impl="%s"' % impl
+        if excl: hdr += ' to_exclusive=yes'
         print(hdr); print(text.rstrip("\n")); print("//#end")
         continue
     ex = X.extract(os.path.join(vf.REPO, f), kind, name, impl)
